@@ -21,7 +21,7 @@ def stream(chk):
                 if not chk.thorough and n == 4 and rng.random() > 0.12:
                     continue
                 out.append((t, list(pat), rng.choice(WEIGHTS), rng.choice([1, 2, 99]), rng.random() < 0.5, rng.choice([0, -1]), 'exhaustive'))
-    for _ in range(chk.n(2500, 30000)):
+    for _ in range(chk.n(2500, 120000)):
         k = rng.choice([3, 4, 5, 6, 7, 8, 9, chk.n(10, 14)])
         t = gl.rand_nested(rng, k)
         pool = rng.choice([[1, 0], [1, 0, -1], [1, 1, 0, -1, -1], [1, 0, 0, 0, -1]])
@@ -31,7 +31,7 @@ def stream(chk):
         out.append((t, pat, rng.choice(WEIGHTS), rng.choice([1, 2, 3, 99]), rng.random() < 0.5, rng.choice([0, -1]), 'random'))
     # strongly asymmetric weights with a limit that cannot bind: a state may be dropped at a node only when it is dominated for BOTH
     # states of the parent, which only shows when gain and loss weight differ by more than one unit
-    for _ in range(chk.n(5000, 40000)):
+    for _ in range(chk.n(5000, 160000)):
         k = rng.choice([5, 6, 7, 8, 9, 10])
         t = gl.rand_nested(rng, k)
         pool = rng.choice([[1, 0], [1, 0, 0], [1, 1, 0], [1, 0, -1]])
@@ -41,7 +41,7 @@ def stream(chk):
         out.append((t, pat, rng.choice([(1, 3), (1, 4), (1, 5), (2, 5), (3, 5), (5, 1), (4, 1), (5, 2), (3, 1)]), 99, rng.random() < 0.5,
                     rng.choice([0, -1]), 'asymmetric-weights'))
     # clades whose leaves are all missing (the undetermined state must stay undetermined)
-    for _ in range(chk.n(1200, 10000)):
+    for _ in range(chk.n(1200, 40000)):
         k = rng.choice([4, 5, 6, 7, 8, 9])
         t = gl.rand_nested(rng, k)
         pat = [rng.choice([1, 0, 0, 1, -1]) for _ in range(k)]
@@ -225,7 +225,8 @@ def run_phybo_modes(chk):
     """restriction / weighted variants of PhyBo._get_GLS and the top-down mode, on a stub object (tree + taxa only)"""
     rng = chk.rng
     fails = []
-    n = chk.n(2000, 20000)
+    member_lines, member_meta = [], []
+    n = chk.n(2000, 80000)
     # corpus: inputs of recorded findings run first (a listed finding that still reproduces prints KNOWN-FINDING)
     corpus = [([2, [4, [5, 0], 3, 1]], {2: -1, 4: 1, 5: -1, 0: -1, 3: 1, 1: 0}, -1, 'topdown', 2),
               ([[3, 7], [[6, 0], 2], [[5, 1], 4]], {3: 0, 7: 1, 6: 0, 0: 0, 2: 1, 5: 0, 1: -1, 4: -1}, -1, 'topdown', 2),
@@ -272,11 +273,32 @@ def run_phybo_modes(chk):
             fails.append((mode, t, paps, md, 'raised %s: %s' % (type(ex).__name__, str(ex)[:80]), None, None))
             continue
         chk.count(('phybo', mode, gl.newick(t), tuple(paps), md, arg), 0 in paps, branch='PhyBo:' + mode)
+        if mode in ('restriction', 'weighted-internal') and len(taxa) <= 8:
+            # tie for theorem C07_restriction: the scenario must be one of the model's root scenarios (all candidates the
+            # bottom-up combination can build, before any filtering)
+            names, toks = gl.structure(tree)
+            member_lines.append('glsr|%d|%s|%s' % (md, ' '.join(toks), ' '.join('%d:%d' % (names[x], q) for x, q in zip(taxa, paps))))
+            member_meta.append((mode, t, list(paps), md, arg, list(sc), names))
         e = gl.oracle_c07(tree, taxa, paps, sc, md)
         if e:
             key = 'topdown-md-1-conflicting-events' if (mode == 'topdown' and md == -1 and -1 in paps and 'a gain and a loss' in e) else None
             fails.append((mode, t, paps, md, e, key, (arg, sc)))
-    chk.tested_not_proved.append('PhyBo restriction / internal weighted / top-down modes: replay oracle on the implementation (stub object), not modelled in Lean')
+    drv = common.Driver()
+    outs = drv.ask_many(member_lines)
+    drv.close()
+    member_bad = []
+    for o, (mode, t, paps, md, arg, sc, names) in zip(outs, member_meta):
+        inv = {v: k for k, v in names.items()}
+        cands = []
+        if o.startswith('R '):
+            for c in o[2:].split(';'):
+                cands.append(set((inv[int(x.split(':')[0])], int(x.split(':')[1])) for x in c.split(',') if x))
+        if set(map(tuple, sc)) not in cands:
+            member_bad.append((mode, t, paps, md, arg, sc))
+    chk.obligation('correspondence:PhyBo._get_GLS (restriction, weighted) scenario is one of the model\'s root scenarios (membership in glsRCandidates; theorem C07_restriction)',
+                   'correspondence', not member_bad, 'calls=%d (trees with <= 8 leaves) mismatches=%d %s' % (len(member_lines), len(member_bad), str(member_bad[0])[:200] if member_bad else ''))
+    chk.tested_not_proved.append('PhyBo top-down mode: replay oracle on the implementation (stub object), not modelled in Lean; restriction / internal weighted mode: '
+                                 'candidate generation modelled (candsR), selection among candidates not modelled (any selection is covered by C07_restriction)')
     chk.obligation('oracle:PhyBo._get_GLS (restriction, weighted) and _get_GLS_top_down replay to the pattern', 'correspondence',
                    not [f for f in fails if f[5] is None or not any(k['key'] == f[5] for k in chk.known)], 'calls=%d failures=%d' % (n, len(fails)))
     fails.sort(key=lambda f: len(f[2]))
@@ -294,6 +316,11 @@ def run_phybo_modes(chk):
         chk.violation('PhyBo %s mode (%r) on %s %r missing_data=%d: %s' % (f[0], f[6][0] if f[6] else None, gl.newick(f[1]), f[2], f[3], f[4]),
                       {'kind': 'phybo', 'mode': f[0], 'tree': gl.newick(f[1]) + ';', 'paps': f[2], 'missing_data': f[3], 'arg_scenario': f[6], 'why': f[4]},
                       key=f[5])
+    if member_bad and not [f for f in fails if f[5] is None]:
+        b = member_bad[0]
+        chk.violation('PhyBo %s mode returns a scenario outside the model\'s candidate set; the replay oracle found no failing input' % b[0],
+                      {'kind': 'phybo-model', 'mode': b[0], 'tree': gl.newick(b[1]) + ';', 'paps': b[2], 'missing_data': b[3], 'arg': b[4], 'scenario': b[5],
+                       'broken': 'correspondence:PhyBo._get_GLS membership'}, found_input=False)
 
 
 def replay(chk, path):
